@@ -103,6 +103,7 @@ def cases(rng, tier):
     # beyond PATH_MAX: a physical directory deeper than 4096 bytes, reached through a short path of links; lstat() on the
     # long spelling fails there while the kernel, entering through the short one, follows every link (found by a bug hunt)
     longs = [_long_chain(L, last) for L in (250, 120) for last in (("F", None), ("D", None), ("L", "{OUT}"))]
+    longs += [_long_lookup(last, ups) for last in (("F", None), ("D", None)) for ups in (1, 2)]
     for i, m in enumerate(modes):
         out.append({"archives": longs, "dest": m, "prepop": False, "open": "path" if i == 1 else "stream", "perfile": False, "label": "beyond-PATH_MAX", "sig": "long-chain"})
     nrand = 2000 if tier == "quick" else 100000
@@ -132,6 +133,18 @@ def _long_chain(L, last):
     arc.append([k + "/L/x", "L", "b/" + "/".join([".."] * n)])
     arc.append([k + "/L/x/x", last[0], last[1]])
     arc.append([k + "/L/x/newname", last[0], last[1]])
+    return arc
+
+
+def _long_lookup(last, ups):
+    """Five members of clean names (fifth hunt): a directory 16 levels of 240 characters deep (its path stays below PATH_MAX);
+    link k -> that directory; link k/<255 characters> -> '../' x 16 (the destination itself: inside); link esc ->
+    k/<255 characters>/.. ; an entry below esc. The lookup of the 255-character name through the long spelling fails with
+    ENAMETOOLONG, through k it does not."""
+    deep = "/".join(["D" * 240] * 16)
+    lname = "L" * 255
+    arc = [[deep, "D", None], ["k", "L", deep], ["k/" + lname, "L", "/".join([".."] * 16)], ["esc", "L", "k/" + lname + "/.." * ups],
+           ["esc/x", last[0], last[1]], ["esc/newname", last[0], last[1]]]
     return arc
 
 
